@@ -3,14 +3,22 @@ package main
 // Part D — ResponseCapture (and the Log middleware that reports its fields).
 //
 // Alphabet of handler operations on the writer it is given: WriteHeader(200), WriteHeader(404),
-// WriteHeader(500), Write(""), Write("a"), Write("hello"), Flush (when the writer is a Flusher).
-// Bound: every sequence of length 0..3 (thorough: 0..5) — this contains "WriteHeader then k
-// writes", "k writes only", "nothing", "WriteHeader twice", "Flush" and all their mixtures.
+// WriteHeader(500), Write(""), Write("a"), Write("hello"), Flush (when the writer is a Flusher),
+// and the informational / upgrade codes WriteHeader(100), (102), (103), (101).
+// Bound: every sequence of length 0..3 over the 11 operations (thorough: 0..5 over the first
+// seven, 0..4 over all eleven) — this contains "WriteHeader then k writes", "k writes only",
+// "nothing", "WriteHeader twice", "Flush", "1xx then final", "several 1xx then final", "1xx then
+// Write without WriteHeader", "101 alone" and all their mixtures.
 // Observation points: direct (CaptureResponse around a recorder), log (the Log middleware's
-// "status"/"bytes" values), server (thorough: a real net/http server and client).
-// Oracle: StatusCode / ContentLength equal the status and the number of body bytes the
-// underlying writer actually put out (what the recorder / the real client saw). When nothing at
-// all reached the underlying writer the status is not asserted.
+// "status"/"bytes" values), server / server-log (the same two behind a real net/http server
+// and client). httptest.ResponseRecorder does not model informational responses (it takes the
+// first WriteHeader, 1xx included, as the status), so every sequence containing a 1xx/101
+// operation is observed over the real server — in the quick tier too; sequences without one
+// use the recorder (and, thorough, the real server as well).
+// Oracle: StatusCode / ContentLength equal the final status and the number of body bytes
+// actually put out (what the recorder / the real client saw). When the handler itself never
+// committed a final status (nothing, or only 1xx) the status is not asserted; after a 101 the
+// connection is no longer HTTP and the byte count is not asserted.
 
 import (
 	"encoding/json"
@@ -18,16 +26,30 @@ import (
 	"net/http"
 	"net/http/httptest"
 	"strings"
+	"sync"
 
 	httpm "goa.design/goa/v3/http/middleware"
 
 	"verif/core"
 )
 
-var captureOps = []string{"WH200", "WH404", "WH500", "W0", "W1", "W5", "FL"}
+var captureOps = []string{"WH200", "WH404", "WH500", "W0", "W1", "W5", "FL", "WH100", "WH102", "WH103", "WH101"}
+
+const plainOps = 7 // captureOps[:plainOps] are the operations the recorder models faithfully
+
+func isInformational(op string) bool { return op == "WH100" || op == "WH102" || op == "WH103" }
+
+func needsRealServer(ops []string) bool {
+	for _, op := range ops {
+		if isInformational(op) || op == "WH101" {
+			return true
+		}
+	}
+	return false
+}
 
 type captureCase struct {
-	Via string   `json:"via"` // direct | log | server
+	Via string   `json:"via"` // direct | log | server | server-log
 	Ops []string `json:"ops"`
 }
 
@@ -51,6 +73,14 @@ func applyOps(w http.ResponseWriter, ops []string) {
 			w.WriteHeader(404)
 		case "WH500":
 			w.WriteHeader(500)
+		case "WH100":
+			w.WriteHeader(100)
+		case "WH102":
+			w.WriteHeader(102)
+		case "WH103":
+			w.WriteHeader(103)
+		case "WH101":
+			w.WriteHeader(101)
 		case "W0":
 			_, _ = w.Write([]byte{})
 		case "W1":
@@ -65,11 +95,28 @@ func applyOps(w http.ResponseWriter, ops []string) {
 	}
 }
 
-type recLogger struct{ lines [][]any }
+// recLogger records log lines; notify (optional) receives one token per line.
+type recLogger struct {
+	mu     sync.Mutex
+	lines  [][]any
+	notify chan struct{}
+}
 
-func (l *recLogger) Log(kv ...any) error { l.lines = append(l.lines, kv); return nil }
+func (l *recLogger) Log(kv ...any) error {
+	l.mu.Lock()
+	l.lines = append(l.lines, kv)
+	l.mu.Unlock()
+	if l.notify != nil {
+		l.notify <- struct{}{}
+	}
+	return nil
+}
+
+func (l *recLogger) reset() { l.mu.Lock(); l.lines = nil; l.mu.Unlock() }
 
 func (l *recLogger) last(key string) (any, bool) {
+	l.mu.Lock()
+	defer l.mu.Unlock()
 	if len(l.lines) == 0 {
 		return nil, false
 	}
@@ -88,6 +135,7 @@ type captureObs struct {
 	Committed     bool // something reached the underlying writer / the wire
 	WroteStatus   int  // status actually written
 	WroteBytes    int  // body bytes actually written
+	BytesUnknown  bool // 101: the body is not an HTTP body any more
 }
 
 func execCapture(cs captureCase) (captureObs, error) {
@@ -112,7 +160,7 @@ func execCapture(cs captureCase) (captureObs, error) {
 			return o, fmt.Errorf("Log middleware did not log integer status/bytes: %v", lg.lines)
 		}
 		o.Reported, o.Status, o.Bytes = true, si, bi
-	case "server":
+	case "server", "server-log":
 		return execCaptureReal(cs)
 	default:
 		return o, fmt.Errorf("unknown via %q", cs.Via)
@@ -120,11 +168,18 @@ func execCapture(cs captureCase) (captureObs, error) {
 	return o, nil
 }
 
-// committedBy names the first operation that puts the status line out (HTTP semantics, used for
-// the signature only — the oracle itself compares with what the underlying writer saw).
-func committedBy(ops []string) (first string, laterWH bool) {
+// committedBy names the first operation that puts the final status line out (HTTP semantics,
+// used for the signature and for "did the handler commit a status at all" — the oracle itself
+// compares with what the underlying writer / the client saw). after1xx: informational
+// responses were sent before it; laterWH: WriteHeader is called again afterwards.
+func committedBy(ops []string) (first string, after1xx, laterWH bool) {
 	for i, op := range ops {
 		switch {
+		case isInformational(op):
+			after1xx = true
+			continue
+		case op == "WH101":
+			first = "writeheader-101"
 		case strings.HasPrefix(op, "WH"):
 			first = "writeheader"
 		case strings.HasPrefix(op, "W"):
@@ -141,7 +196,7 @@ func committedBy(ops []string) (first string, laterWH bool) {
 			return
 		}
 	}
-	return "nothing", false
+	return "nothing", after1xx, false
 }
 
 func checkCapture(cs captureCase) (fails []failure, outcome string) {
@@ -150,27 +205,29 @@ func checkCapture(cs captureCase) (fails []failure, outcome string) {
 		return []failure{{"capture via=" + cs.Via + " observed=harness-error", err.Error()}}, "error"
 	}
 	desc, _ := json.Marshal(cs)
-	first, laterWH := committedBy(cs.Ops)
+	first, after1xx, laterWH := committedBy(cs.Ops)
 	if o.Committed {
 		if o.Status != o.WroteStatus {
 			reported := "other-code"
 			switch {
 			case o.Status == 0:
 				reported = "zero"
+			case o.Status >= 100 && o.Status < 200 && o.Status != 101:
+				reported = "informational-code"
 			case laterWH:
 				reported = "code-of-a-later-writeheader"
 			}
 			fails = append(fails, failure{
-				fmt.Sprintf("capture via=%s field=status committed-by=%s later-writeheader=%v reported=%s", cs.Via, first, laterWH, reported),
+				fmt.Sprintf("capture via=%s field=status committed-by=%s after-1xx=%v later-writeheader=%v reported=%s", cs.Via, first, after1xx, laterWH, reported),
 				fmt.Sprintf("ResponseCapture reports status %d, status actually written is %d [case %s]", o.Status, o.WroteStatus, desc)})
 		}
 	}
-	if o.Bytes != o.WroteBytes {
+	if !o.BytesUnknown && o.Bytes != o.WroteBytes {
 		fails = append(fails, failure{
-			fmt.Sprintf("capture via=%s field=bytes committed-by=%s", cs.Via, first),
+			fmt.Sprintf("capture via=%s field=bytes committed-by=%s after-1xx=%v", cs.Via, first, after1xx),
 			fmt.Sprintf("ResponseCapture reports %d bytes, %d bytes were actually written [case %s]", o.Bytes, o.WroteBytes, desc)})
 	}
-	return fails, fmt.Sprintf("capture via=%s committed-by=%s later-writeheader=%v wrote-status=%d body-empty=%v", cs.Via, first, laterWH, o.WroteStatus*b2i(o.Committed), o.WroteBytes == 0)
+	return fails, fmt.Sprintf("capture via=%s committed-by=%s after-1xx=%v later-writeheader=%v wrote-status=%d body-empty=%v", cs.Via, first, after1xx, laterWH, o.WroteStatus*b2i(o.Committed), o.WroteBytes == 0)
 }
 
 func b2i(b bool) int {
@@ -180,16 +237,21 @@ func b2i(b bool) int {
 	return 0
 }
 
-func runCaptureVia(c *core.Ctx, via string, maxLen int) int64 {
+// runCaptureVia enumerates every sequence of length 0..maxLen over captureOps[:nops]; filter
+// (may be nil) selects the sequences observed at this point.
+func runCaptureVia(c *core.Ctx, via string, nops, maxLen int, filter func(ops []string) bool) int64 {
 	var cases int64
 	for n := 0; n <= maxLen; n++ {
-		core.Sequences(len(captureOps), n, func(seq []int) bool {
+		core.Sequences(nops, n, func(seq []int) bool {
 			ops := make([]string, len(seq))
 			for i, k := range seq {
 				ops[i] = captureOps[k]
 			}
+			if filter != nil && !filter(ops) {
+				return true
+			}
 			cs := captureCase{Via: via, Ops: ops}
-			first, _ := committedBy(ops)
+			first, _, _ := committedBy(ops)
 			c.State("capture:"+via+":"+strings.Join(ops, ","), first != "nothing")
 			fails, outcome := checkCapture(cs)
 			c.Exec(1)
@@ -209,17 +271,27 @@ func runCaptureVia(c *core.Ctx, via string, maxLen int) int64 {
 }
 
 func runCapture(c *core.Ctx) {
-	maxLen := 3
+	defer closeCaptureServer()
+	plainLen, allLen := 3, 3
 	if c.Thorough() {
-		maxLen = 5
+		plainLen, allLen = 5, 4
 	}
 	var cases int64
 	for _, via := range []string{"direct", "log"} {
-		cases += runCaptureVia(c, via, maxLen)
+		cases += runCaptureVia(c, via, plainOps, plainLen, nil)
+	}
+	// sequences with informational / upgrade codes: only a real server shows the final status
+	serverFilter := needsRealServer
+	if c.Thorough() {
+		serverFilter = nil // thorough: every sequence also over the real server
+	}
+	for _, via := range []string{"server", "server-log"} {
+		cases += runCaptureVia(c, via, len(captureOps), allLen, serverFilter)
 	}
 	if c.Expired() {
 		c.Incomplete("capture: deadline reached")
 	}
 	c.Note("capture_cases", cases)
-	c.Note("capture_bounds", fmt.Sprintf("ops %v, every sequence of length 0..%d, via direct and via Log", captureOps, maxLen))
+	c.Note("capture_bounds", fmt.Sprintf("ops %v: every sequence of length 0..%d over the first %d via direct and via Log (recorder); every sequence of length 0..%d over all %d that %s via a real server (capture and Log)",
+		captureOps, plainLen, plainOps, allLen, len(captureOps), map[bool]string{true: "exists", false: "contains a 1xx/101 operation"}[c.Thorough()]))
 }
